@@ -3,7 +3,30 @@ also what C01 / C12 / C17 rely on).  Uses the `qfun` kind of tools/lib/qfun.py: 
 function becomes a Gallina definition over NanQ.t, a pytree being its flattened
 coordinate list.  `tree_l2_norm` is NOT translated (sqrt): the clip function takes it
 as the section variable `l2norm`."""
+from translate import find_def
 from lib.qfun import A_qfun, A_qfold, A_jit_alias, A_donates_none
+from lib.pat import match_def
+
+
+def emit_l2(tree):
+  """tree_l2_squared = sum over leaves of vdot(x, x) = sum of squares of all coordinates;
+  tree_l2_norm = sqrt of it (sqrt is not modelled: the norm enters the clip model as a number n
+  with 0 <= n and n * n = tree_l2_squared)."""
+  h = match_def(find_def(tree, 'tree_l2_squared'), '''
+@jax.jit
+def tree_l2_squared(H_t):
+  return sum(jnp.vdot(H_x, H_x) for H_x in jax.tree_util.tree_leaves(H_t))
+''', 'tree_l2_squared')
+  match_def(find_def(tree, 'tree_l2_norm'), '''
+@jax.jit
+def tree_l2_norm(H_t):
+  return jnp.sqrt(tree_l2_squared(H_t))
+''', 'tree_l2_norm')
+  return (f'Definition tree_l2_squared ({h["t"]} : list NanQ.t) : NanQ.t :=\n'
+          f'  NanQ.sum (map (fun {h["x"]} => NanQ.mul {h["x"]} {h["x"]}) {h["t"]}).\n'
+          f'(* tree_l2_norm = jnp.sqrt(tree_l2_squared(.)) (checked) *)\n'
+          f'Definition is_l2_norm (n : Q) ({h["t"]} : list NanQ.t) : Prop :=\n'
+          f'  (0 <= n)%Q /\\ NanQ.eq (tree_l2_squared {h["t"]}) (Some (n * n)%Q).')
 
 TU = 'fedjax/core/tree_util.py'
 
@@ -37,6 +60,7 @@ MODULES = {
             A_qfold('tree_sum', 'tree_sum', 'pytrees', 'trees', [('pytree', 'tree')], 'otree', calls=CALLS),
             A_qfold('tree_mean', 'tree_mean', 'pytrees_and_weights', 'cl',
                     [('pytree', 'tree'), ('weight', 'Q')], 'otree', calls=CALLS),
+            emit_l2,
             lambda tree: 'Section clip.\nVariable l2norm : list NanQ.t -> NanQ.t.',
             A_qfun('tree_clip_by_global_norm', 'tree_clip_by_global_norm', ['pytree', 'max_norm'],
                    [('pytree', 'tree'), ('max_norm', 'Q')], 'tree', calls=CALLS),
